@@ -757,4 +757,58 @@ def srvHostCase (thr : Nat) (l : List Bytes) (look : Bytes → Bytes) (emptyGlob
     | none => .phase1Err
     | some m' => .res (matchHostX (fun e => expand look e.length e) thr m' rhost)
 
+/-! ### the HTTP→HTTPS redirect route of automatic HTTPS (autohttps.go, second half of phase 1)
+
+Every name phase 1 read out of the server's provisioned host matchers (global placeholders
+expanded) becomes a "redirect domain"; the domains (a map's keys: no exact repeats) are sorted
+byte-wise (`slices.Sorted`) and wrapped as `MatchHost(domains)` in a redirect route whose
+target carries the server's port; behind it sits a catch-all redirect to the default HTTPS
+port.  "note that we happen to bypass Provision and Validate steps for these matcher modules":
+in the code as it is (`provisioned = false`) the host matcher of that route is used as built. -/
+
+def insertBytes (x : Bytes) : List Bytes → List Bytes
+  | [] => [x]
+  | y :: ys => if bytesLt x y then x :: y :: ys else if x = y then y :: ys else y :: insertBytes x ys
+
+/-- `slices.Sorted(maps.Keys(…))`: distinct strings in byte order -/
+def sortDedup : List Bytes → List Bytes
+  | [] => []
+  | x :: xs => insertBytes x (sortDedup xs)
+
+/-- names that differ only by letter case count as repeated in `Provision`: keep the first -/
+def dedupCI : List Bytes → List Bytes → List Bytes
+  | _, [] => []
+  | seen, d :: ds => if seen.contains (lower d) then dedupCI seen ds else d :: dedupCI (lower d :: seen) ds
+
+/-- the redirect domains of a server whose routes carry the (provisioned) host lists `ms`;
+    `lookG` expands global placeholders and re-emits request placeholders -/
+def redirDomains (lookG : Bytes → Bytes) (ms : List (List Bytes)) : List Bytes :=
+  sortDedup (ms.flatten.map fun e => expand lookG e.length e)
+
+/-- the host matcher of the redirect route at request time -/
+def redirMatch (provisioned : Bool) (thr : Nat) (domains : List Bytes) (look : Bytes → Bytes) (rhost : Bytes) : Bool :=
+  if provisioned then
+    match provisionHost thr (dedupCI [] domains) with
+    | some m => matchHostX (fun e => expand look e.length e) thr m rhost
+    | none => false
+  else matchHostX (fun e => expand look e.length e) thr domains rhost
+
+def provisionAll (thr : Nat) : List (List Bytes) → Option (List (List Bytes))
+  | [] => some []
+  | l :: ls =>
+    match provisionHost thr l, provisionAll thr ls with
+    | some m, some r => some (m :: r)
+    | _, _ => none
+
+/-- load a server with one host-matched route per list of `lists`, then send a plaintext
+    request to the redirect listener: `true` = redirected by the host-matched redirect route (to
+    the server's own port), `false` = by the catch-all behind it (to the default HTTPS port) -/
+def redirCase (provisioned : Bool) (thr : Nat) (lists : List (List Bytes)) (lookG look : Bytes → Bytes)
+    (emptyGlobal : Bytes → Bool) (rhost : Bytes) : SrvRes :=
+  match provisionAll thr lists with
+  | none => .dup
+  | some ms =>
+    if ms.any (fun m => (autohttpsHostView emptyGlobal m).isNone) then .phase1Err
+    else .res (redirMatch provisioned thr (redirDomains lookG ms) look rhost)
+
 end CaddyModel.C06
